@@ -148,6 +148,7 @@ class SymEx:
         self.stop_at = stop_at  # fn(block_index) -> bool : end the path here (kind 'stop')
         self.arg_values = arg_values or {}
         self.truncated = False
+        self.dom = {}  # frozen discriminant term -> all discriminants of its type
 
     # --- places
     def read_place(self, path, p):
@@ -262,6 +263,9 @@ class SymEx:
                 for i, var in enumerate(a['variants']):
                     if var['name'] == v[2]:
                         return ('const', var.get('discr', i), 'isize')
+            dom = self.discr_domain(rv.get('adt'))
+            if dom:
+                self.dom[freeze(('discr', v))] = dom
             return ('discr', v)
         if k == 'agg':
             a = rv.get('agg')
@@ -281,6 +285,7 @@ class SymEx:
     def cond_consistent(self, path, term, kind, val):
         """Check (term kind val) against conditions already on the path. Returns False if contradictory."""
         ft = freeze(term)
+        excluded = set(val) if kind == 'ne' else set()
         for (t, c) in path.conds:
             if freeze(t) != ft:
                 continue
@@ -292,7 +297,19 @@ class SymEx:
             else:
                 if kind == 'eq' and val in c[1]:
                     return False
+                excluded |= set(c[1])
+        # a discriminant of a type whose variants are all known: excluding every one of them leaves no value
+        dom = self.dom.get(ft)
+        if dom and kind == 'ne' and dom <= excluded:
+            return False
         return True
+
+    def discr_domain(self, adt):
+        if adt in ('std::option::Option', 'std::result::Result', 'std::task::Poll', 'std::ops::ControlFlow'):
+            return frozenset({0, 1})
+        if adt and self.F is not None and adt in self.F.adts and self.F.adts[adt]['kind'] == 'Enum':
+            return frozenset(var.get('discr', i) for i, var in enumerate(self.F.adts[adt]['variants']))
+        return None
 
     def run(self, start_block=0, init_env=None):
         out = []
@@ -503,6 +520,33 @@ def default_call_model(nm, args, bi, c):
     if base in ('deref', 'deref_mut', 'as_ref', 'as_mut', 'borrow') and len(args) == 1:
         return ('ref', ('deref', mk_deref(args[0]))) if False else ('call', nm, tuple(args), bi)
     return ('call', nm, tuple(args), bi)
+
+
+def derived_eq(F, name):
+    """`<T as PartialEq>::eq` generated by #[derive(PartialEq)] for a field-less enum of the crate: discriminant equality."""
+    b = F.bodies.get(name)
+    if b is None or not re.match(r'^<(\S+) as std::cmp::PartialEq>::eq$', name):
+        return False
+    adt = F.adts.get(b.d.get('impl_self') or '')
+    if not adt or any(v['fields'] for v in adt['variants']):
+        return False
+    sts = [s for bi, j, s in b.stmts() if s['k'] == 'assign']
+    return bool(sts) and all((s.get('mac') or '').split('>')[0] == 'PartialEq' for s in sts)
+
+
+def derived_eq_model(F):
+    """Call model: `a == b` / `a != b` on two known values of a field-less enum with a derived PartialEq is a constant."""
+    def model(nm, args, t, path):
+        if len(args) == 2 and re.search(r' as std::cmp::PartialEq>::(eq|ne)$', nm) and derived_eq(F, re.sub(r'::ne$', '::eq', nm)):
+            vs = []
+            for a in args:
+                while isinstance(a, tuple) and a and a[0] in ('ref', 'deref'):
+                    a = a[1]
+                vs.append(a)
+            if all(v[0] == 'agg' and not v[3] for v in vs) and vs[0][1] == vs[1][1]:
+                return ('const', int((vs[0][2] == vs[1][2]) == nm.endswith('::eq')), 'bool')
+        return None
+    return model
 
 
 def cond_map(path):
